@@ -19,6 +19,7 @@ import (
 	"github.com/XiaoMi/Gaea/parser"
 	"github.com/XiaoMi/Gaea/proxy/router"
 	"strings"
+	"unicode"
 
 	"github.com/XiaoMi/Gaea/mysql"
 	"github.com/XiaoMi/Gaea/parser/ast"
@@ -218,7 +219,7 @@ func createLastInsertIDResult(lastInsertID uint64, asName string) *mysql.Result 
 }
 
 // MentionsShardTable reports whether some word of sql (a maximal run of letters,
-// digits, '_', '$' and non-ASCII characters), lower-cased, is the name of a table
+// digits, '_', '$' and non-ASCII characters other than white space), lower-cased, is the name of a table
 // that has a shard rule in any database of the router. The token checks below look
 // at one token per keyword and compare it case-sensitively; a statement for which
 // this function returns true must be analysed by the parser.
@@ -235,8 +236,13 @@ func MentionsShardTable(sql string, rt *router.Router) bool {
 	return false
 }
 
+// isNotIdentifierRune: the parser skips every Unicode white space character before a
+// token (U+00A0, U+3000, ... as well as the ASCII ones), so these end a word too.
 func isNotIdentifierRune(r rune) bool {
-	return !(r == '_' || r == '$' || r >= 0x80 ||
+	if r >= 0x80 {
+		return unicode.IsSpace(r)
+	}
+	return !(r == '_' || r == '$' ||
 		('0' <= r && r <= '9') || ('a' <= r && r <= 'z') || ('A' <= r && r <= 'Z'))
 }
 
